@@ -67,6 +67,7 @@ class GridRef:
         A = bspl.collocation(ref, v)
         Ainv = np.linalg.inv(A)
         out = np.empty_like(F)
+        self.last_outside = np.zeros(F.shape, dtype=bool)
         vmin, vmax = v[0], v[-1]
         for i, ri in enumerate(r):
             for k in range(len(q)):
@@ -83,6 +84,7 @@ class GridRef:
                     else:
                         res[outside] = 0.0
                     out[i, k, j, :] = res
+                    self.last_outside[i, k, j, :] = outside
         return out
 
     # -- poloidal advection ---------------------------------------------------------------------
